@@ -263,7 +263,8 @@ unsigned int OneDimensionOptimizationTools::lineSearch(
   // Update parameters:
   // parameters.matchParametersValues(f1dim.getFunction()->getParameters());
 
-  double xmin = f1dim->getParameters()[0].getValue();
+  // The point retained by the optimizer (0 if the backtracking failed), not the last point tried:
+  double xmin = nbod.getParameters()[0].getValue();
   for (unsigned int j = 0; j < parameters.size(); ++j)
   {
     xi[j] *= xmin;
